@@ -309,12 +309,14 @@ def campaign(ctx, ks):
         if r["parallel"]:
             traces.append((name, job, coq_trace_case(r, -1 if job["timeout"] == -1 else int(job["timeout"] * 10 ** 6))))
         # (a) post on the delivered list
-        if r.get("lat_exact") and r.get("n_paths", 0) <= 2500 and (r["timed_out"] or job["timeout"] == -1):
+        # Coq budget: de-duplication is quadratic in the number of distinct, long latency paths
+        size = lambda ps: sum(len(p) for p in ps)
+        if r.get("lat_exact") and r.get("n_paths", 0) <= 2500 and size(r["paths"]) <= 30000 and (r["timed_out"] or job["timeout"] == -1):
             body = lcd_par.COQ_PRELUDE
             body += "Definition ps : list path := %s.\n" % lcd_par.coq_paths(r["paths"])
             body += "Definition expected : list entry := %s.\n" % lcd_par.coq_expected(r["lcd"])
             checks = ["agrees %d ps expected" % r["offset"]]
-            if name in fullpaths and fullpaths[name][2] and len(fullpaths[name][0]) <= 3000:
+            if name in fullpaths and fullpaths[name][2] and len(fullpaths[name][0]) <= 3000 and size(fullpaths[name][0]) <= 30000:
                 body += "Definition allp : list path := %s.\n" % lcd_par.coq_paths(fullpaths[name][0])
                 body += "Definition fulld : list entry := %s.\n" % lcd_par.coq_expected(full[name])
                 # hypothesis and conclusion of partial_sound, decided on the real data
